@@ -1244,6 +1244,43 @@ func (c *Check) fixedC12() []*plan.Plan {
 		out = append(out, c.racePlan("different-docs", run, uint64(i), docs, r, 4, 2, []int{30, 150, 400, 0}[i], false, false, i%3))
 		run++
 	}
+	// every probe page (element names in degenerate forms, attribute names, text-less pages, wrapped pagers)
+	// passes through two concurrent callers, each page as a private tree in both and as one shared tree:
+	// the scheduler's hand-over is invisible to the race detector, so two unsynchronised accesses to the
+	// same library variable by the two callers are reported whenever they happen during the plan
+	{
+		probes := append(append(append(gen.AttrProbeDocs(), gen.TagProbeDocs()...), gen.DegenerateDocs(24)...), gen.WrappedPagerDocs()...)
+		per := 40
+		if c.tier == "thorough" {
+			per = 12
+		}
+		for lo := 0; lo < len(probes); lo += per {
+			hi := min(lo+per, len(probes))
+			p := c.newPlan("probe-pages", run, uint64(lo), "race")
+			run++
+			var t0, t1 []plan.Op
+			for k := lo; k < hi; k++ {
+				d := probes[k]
+				id := fmt.Sprintf("d%d", k-lo)
+				p.Docs = append(p.Docs, plan.NewDoc(id, d.Bytes, d.Origin))
+				flags := []uint{0, 31, 30, 8}[(k/3)%4]
+				p.Options = append(p.Options, optWithURL("o"+id, d.URL, uint(k%2), flags))
+				if k%4 == 3 {
+					p.Trees = append(p.Trees, plan.Tree{ID: "ts" + id, Doc: id, Root: "document"})
+					t0 = append(t0, plan.Op{Op: "Apply", Tree: "ts" + id, Opt: "o" + id})
+					t1 = append(t1, plan.Op{Op: "Apply", Tree: "ts" + id, Opt: "o" + id})
+				} else {
+					p.Trees = append(p.Trees, plan.Tree{ID: "ta" + id, Doc: id, Root: "document"}, plan.Tree{ID: "tb" + id, Doc: id, Root: "document"})
+					t0 = append(t0, plan.Op{Op: "Apply", Tree: "ta" + id, Opt: "o" + id})
+					t1 = append(t1, plan.Op{Op: "Apply", Tree: "tb" + id, Opt: "o" + id})
+				}
+			}
+			p.Tasks = [][]plan.Op{t0, t1}
+			p.Schedule = gen.RandSchedule(gen.NewRand(uint64(0x9b0+lo)), 2, 700, 400)
+			p.Schedule.After = "cycle"
+			out = append(out, p)
+		}
+	}
 	// (bubble kernel) the same page in eight calls at once on simulated CPUs from very fast to very slow:
 	// what a call sees of the clock depends on how much the other calls compute in between.
 	// The solo reference runs on the same simulated CPU.
